@@ -204,6 +204,10 @@ structure State where
   displayedStep : Option Nat
   /-- `_displayed_max`: the maximum shown by the frame on the line (repair of D18b) -/
   displayedMax : Option Nat
+  /-- `_displayed_line_count`: `_format_line_count` at the latest `_overwrite` - the number of line
+  breaks of the frame (or of the blank lines of `clear()`) standing on the output; `none` before the
+  first write (repair of D39) -/
+  displayedLineCount : Option Nat
   startTime : Nat
   /-- the section's `_content` (lines; the `"\n"` entries are implicit) and `_lines` -/
   secContent : List Str
@@ -217,7 +221,7 @@ def init (m : Int) (t : Nat) : State :=
   let mx := (Max.max 0 m).toNat
   { step := 0, max := mx, stepWidth := stepWidthOf mx, percent := ⟨0, 1⟩, format := none,
     formatLineCount := 0, messages := [], lastLen := 0, lastWriteTime := 0, writeCount := 0,
-    displayedStep := none, displayedMax := none, startTime := t, secContent := [], secLines := 0 }
+    displayedStep := none, displayedMax := none, displayedLineCount := none, startTime := t, secContent := [], secLines := 0 }
 
 /-! ## Format selection -/
 
@@ -429,21 +433,36 @@ def secWrite (c : Config) (s : State) (text : Str) : State × List Str :=
 
 def maxLen (ls : List Str) : Nat := ls.foldl (fun m l => Max.max m l.length) 0
 
-/-- `_overwrite(message)` at clock reading `t` -/
-def overwrite (c : Config) (s : State) (t : Nat) (message : Str) : State × List Str :=
+/-- the number of lines `_overwrite` moves back by.  With the repair D39 (`byDisplayed`): the line
+count of the frame STANDING on the output (`_displayed_line_count`; the current format's before the
+first write); before the repair: the line count of the format in use now, whatever stands there. -/
+def moveCount (byDisplayed : Bool) (s : State) : Nat :=
+  if byDisplayed then s.displayedLineCount.getD s.formatLineCount else s.formatLineCount
+
+/-- `_overwrite(message)` at clock reading `t`; `byDisplayed` says whether the cursor movement / the
+section clearing goes by the line count of the frame standing there and erases below the cursor
+when the new format has another line count (the D39 repair; read from the source on every run) -/
+def overwriteWith (byDisplayed : Bool) (c : Config) (s : State) (t : Nat) (message : Str) : State × List Str :=
   let lines := (splitNL message).map (ljust s.lastLen)
   let text := joinNL lines
+  let n := moveCount byDisplayed s
   let (s1, w1) : State × List Str :=
     match c.kind with
-    | .section => secClear c s (lines.length / c.termWidth + s.formatLineCount + 1)
-    | .ansi => (s, emit c ['\r'] ++ (if s.formatLineCount ≠ 0 then emit c (cursorUp s.formatLineCount) else []))
+    | .section => secClear c s (lines.length / c.termWidth + n + 1)
+    | .ansi => (s, emit c ['\r'] ++ (if n ≠ 0 then emit c (cursorUp n) else []) ++
+                   (if byDisplayed = true ∧ n ≠ s.formatLineCount then emit c eraseDown else []))
     | .plain | .plainSection => (s, if s.writeCount > 0 then emit c ['\n'] else [])
   let (s2, w2) : State × List Str :=
     match c.kind with
     | .section => secWrite c s1 text
     | _ => (s1, emit c text)
   ({ s2 with lastLen := maxLen lines, lastWriteTime := t, writeCount := s2.writeCount + 1,
-             displayedStep := some s2.step, displayedMax := some s2.max }, w1 ++ w2)
+             displayedStep := some s2.step, displayedMax := some s2.max,
+             displayedLineCount := some s2.formatLineCount }, w1 ++ w2)
+
+/-- `_overwrite(message)` as the current source has it -/
+def overwrite (c : Config) (s : State) (t : Nat) (message : Str) : State × List Str :=
+  overwriteWith Gen.C16.overwriteMovesByDisplayedLineCount c s t message
 
 /-! ## Frames, results, operations -/
 
@@ -686,6 +705,70 @@ def paddedText (lastLen : Nat) (text : Str) : Str := joinNL ((splitNL text).map 
 
 /-- the line(s) a drawing call puts on a plain output -/
 def plainLine (e : Event) : Option Str := e.res.frame.map (fun f => paddedText e.pre.lastLen f.text)
+
+/-! ## Reading the writes of a MULTI-LINE bar: a terminal with rows
+
+What `_overwrite` sends to an ANSI output is a carriage return, `ESC[nA` (cursor up `n` rows), since
+the repair D39 possibly `ESC[0J` (erase from the cursor to the end of the screen), and the lines of
+the frame joined by line breaks.  `ansiWrites` is that list of writes; `Scr` is a terminal with
+rows that interprets the same four commands (`Scr.redraw`). -/
+
+/-- the writes of `_overwrite` on an ANSI output: CR, cursor up `n` (if not 0), erase below (if
+asked), the lines -/
+def ansiWrites (n : Nat) (erase : Bool) (lines : List Str) : List Str :=
+  [['\r']] ++ (if n ≠ 0 then [cursorUp n] else []) ++ (if erase then [eraseDown] else []) ++ [joinNL lines]
+
+/-- a terminal: the rows above the cursor row (nearest first), the cursor row, the column, the rows
+below the cursor row -/
+structure Scr where
+  aboveRev : List Str
+  cur : Str
+  col : Nat
+  below : List Str
+  deriving DecidableEq, Repr, Inhabited
+
+/-- printable text put at the cursor overwrites what stands there -/
+def overlayAt (row : Str) (col : Nat) (txt : Str) : Str :=
+  ljust col (row.take col) ++ txt ++ row.drop (col + txt.length)
+
+def Scr.cr (x : Scr) : Scr := { x with col := 0 }
+
+/-- `ESC[nA`; the cursor stops at the top row -/
+def Scr.up : Nat → Scr → Scr
+  | 0, x => x
+  | n + 1, x =>
+    match x.aboveRev with
+    | [] => x
+    | a :: ab => Scr.up n { aboveRev := ab, cur := a, col := x.col, below := x.cur :: x.below }
+
+/-- `ESC[0J` -/
+def Scr.eraseDown (x : Scr) : Scr := { x with cur := x.cur.take x.col, below := [] }
+
+/-- a line break (cooked terminal: to the start of the next row) -/
+def Scr.nl (x : Scr) : Scr :=
+  match x.below with
+  | [] => { aboveRev := x.cur :: x.aboveRev, cur := [], col := 0, below := [] }
+  | b :: bs => { aboveRev := x.cur :: x.aboveRev, cur := b, col := 0, below := bs }
+
+def Scr.puts (x : Scr) (txt : Str) : Scr :=
+  { x with cur := overlayAt x.cur x.col txt, col := x.col + txt.length }
+
+/-- a line break followed by the next line of the frame -/
+def Scr.lineStep (x : Scr) (l : Str) : Scr := (x.nl).puts l
+
+/-- the lines of a frame, joined by line breaks -/
+def Scr.putLines (x : Scr) : List Str → Scr
+  | [] => x
+  | l :: ls => ls.foldl Scr.lineStep (x.puts l)
+
+/-- the terminal after the writes `ansiWrites n erase lines` -/
+def Scr.redraw (x : Scr) (n : Nat) (erase : Bool) (lines : List Str) : Scr :=
+  let x1 := (x.cr).up n
+  let x2 := if erase then x1.eraseDown else x1
+  x2.putLines lines
+
+/-- the rows of the terminal from the top -/
+def Scr.rows (x : Scr) : List Str := x.aboveRev.reverse ++ x.cur :: x.below
 
 /-! ## Deciders for the hypotheses of the theorems (Props/C16 `hyps_decide`)
 
